@@ -340,6 +340,33 @@ def conc_cases(rng, n, rounds):
     return out
 
 
+# ---- two inputs handled at overlapping times (beyond the quantifier; see harness/cmd/c20/overlap.go) ----
+
+def overlap_cases(rng, n_rand):
+    g = bytes([5, 1, 0])
+    reqs = {"bind": bytes([5, 2, 0, 1, 1, 2, 3, 4, 0, 80]), "atyp": bytes([5, 1, 0, 9, 1, 2, 3, 4, 0, 80]),
+            "ver": bytes([4, 1, 0, 1, 1, 2, 3, 4, 0, 80]), "ok": bytes([5, 1, 0, 3, 4]) + b"t.co" + bytes([1, 187]),
+            "ok6": bytes([5, 1, 0, 4]) + bytes(15) + b"\x01" + bytes([0, 80]), "nometh": b""}
+    out = []
+    for kind in ("listener", "adapter"):
+        names = list(reqs)
+        for a in names:
+            for b in names:
+                if a == b:
+                    continue
+                sa = (bytes([5, 1, 2]) if a == "nometh" else g + reqs[a])
+                sb = (bytes([5, 1, 2]) if b == "nometh" else g + reqs[b])
+                out.append({"k": "twoconn", "conns": [mk_session(kind, sa, []), mk_session(kind, sb, [1] * len(sb))]})
+    rnd = session_cases(rng, ["listener", "adapter", "adapter-auth"], n_rand, trunc_prob=0.1)
+    for i in range(0, len(rnd) - 1, 2):
+        out.append({"k": "twoconn", "conns": [rnd[i], rnd[i + 1]]})
+    for host in (bytes([0, 0, 0, 1, 1, 2, 3, 4]), bytes([0, 0, 0, 3, 11]) + b"example.com", bytes([0, 0, 0, 4]) + bytes(15) + b"\x01"):
+        d = host + (7000).to_bytes(2, "big") + bytes([0x41] * 48)
+        later = [(bytes([0, 0, 0, 1, 8, 8, 8, 8, 0, 53]) + bytes([0x42 + i] * 48)).hex() for i in range(4)]
+        out.append({"k": "relay", "d": d.hex(), "later": later, "rounds": 8})
+    return out
+
+
 # ---------------------------------------------------------------------------------------------------
 # case -> universal value for Corr/C20.check
 # ---------------------------------------------------------------------------------------------------
@@ -480,6 +507,7 @@ def run(ctx, only_cases=None):
         cases += enum_histories()
         cases += [rand_history(rng) for _ in range(3000 if thorough else 300)]
         cases += conc_cases(rng, 60 if thorough else 10, 8 if thorough else 4)
+        cases += overlap_cases(rng, 200 if thorough else 20)
         cases = dedupe(cases)
     outs = vlib.run_harness(binary, cases, timeout=1500)
 
@@ -499,12 +527,19 @@ def run(ctx, only_cases=None):
 
     # (ii) model vs implementation (pinned variants for the cases explained by the two repaired defects)
     mism = []
-    cmp_idx = [i for i, o in enumerate(outs) if not o.get("panic")]
-    terms = [case_value(cases[i], outs[i]) for i in cmp_idx]
+    pairs = []          # (case, observation) handed to the model; a twoconn case contributes its two connections
+    for c, o in zip(cases, outs):
+        if o.get("panic") or c["k"] == "relay":
+            continue            # relay: real sockets/goroutines, judged by the Go-side predicate only
+        if c["k"] == "twoconn":
+            pairs += [(sc, so) for sc, so in zip(c["conns"], o["conns"]) if not so.get("panic")]
+        else:
+            pairs.append((c, o))
+    terms = [case_value(c, o) for c, o in pairs]
     try:
         res = vlib.model_eval("C20", terms)
-        mism = [cmp_idx[k] for k, ok in enumerate(res) if not ok]
-        small = [k for k, i in enumerate(cmp_idx) if len(json.dumps(cases[i])) < 400]
+        mism = [k for k, ok in enumerate(res) if not ok]
+        small = [k for k, (c, _) in enumerate(pairs) if len(json.dumps(c)) < 400]
         small = small[:: max(1, len(small) // 40)][:40]
         vm_bad = sorted(small[k] for k in vlib.vm_crosscheck("C20", [terms[k] for k in small]))
         ext_bad = sorted(k for k in small if not res[k])
@@ -513,19 +548,19 @@ def run(ctx, only_cases=None):
         ctx.coverage["vm_compute_crosschecked_cases"] = len(small)
     except vlib.Broken as b:
         broken = broken or b
-    for i in mism[:3]:
-        o = outs[i]
+    for k in mism[:3]:
+        c, o = pairs[k]
         if o["prop_ok"] or o.get("prop_key") in PINNED_KEYS:
             which = "pinned" if o.get("prop_key") in PINNED_KEYS else "current"
             pred = None
             try:
-                pred = vlib.model_eval("C20", [case_value(cases[i], o)], predict=True)[1][0]
+                pred = vlib.model_eval("C20", [case_value(c, o)], predict=True)[1][0]
             except Exception:
                 pass
             ctx.violation("model-mismatch", "Corr/C20.check: the %s Socks model and the real parser disagree on a case on which the "
                           "Go-side RFC predicate %s; the theorems of Properties/C20.v no longer speak about this code"
                           % (which, "holds" if o["prop_ok"] else "fails with the known key " + o["prop_key"]),
-                          {"case": cases[i], "observed": {k: v for k, v in o.items() if k != "tbl"}, "model_predicts": pred},
+                          {"case": c, "observed": {kk: v for kk, v in o.items() if kk != "tbl"}, "model_predicts": pred},
                           found_input=False)
 
     # coverage
@@ -534,7 +569,9 @@ def run(ctx, only_cases=None):
             "sessions_accepted": 0, "sessions_with_error_reply": 0, "sessions_rejected_silently_or_incomplete": 0,
             "udp_accepted": 0, "udp_dropped": 0, "chunkings": {"one_shot": 0, "bytewise": 0, "other": 0},
             "enumerated_structured_cases": n_enum, "relay_histories": 0, "concurrent_build_cases": 0,
-            "history_operations": 0, "parse_results_whose_payload_aliases_the_input_buffer": 0}
+            "history_operations": 0, "parse_results_whose_payload_aliases_the_input_buffer": 0,
+            "overlapping_connection_pairs": 0, "real_relay_cases": 0, "real_relay_rounds_judged": 0,
+            "real_relay_rounds_inconclusive": 0}
     for c, o in zip(cases, outs):
         k = c["k"]
         if k in ("listener", "adapter"):
@@ -558,6 +595,11 @@ def run(ctx, only_cases=None):
                 dist["udp_dropped"] += 1
         elif k == "build":
             dist["udp_build"] += 1
+            nontrivial.add(case_key(c))
+        elif k in ("twoconn", "relay"):
+            dist["overlapping_connection_pairs" if k == "twoconn" else "real_relay_cases"] += 1
+            dist["real_relay_rounds_judged"] += o.get("relay_rounds_judged", 0)
+            dist["real_relay_rounds_inconclusive"] += o.get("inconclusive", 0)
             nontrivial.add(case_key(c))
         else:
             dist["relay_histories" if k == "seq" else "concurrent_build_cases"] += 1
@@ -603,6 +645,11 @@ def run(ctx, only_cases=None):
         "code, measured on every run: coverage.input_distribution.parse_results_whose_payload_aliases_the_input_buffer). This is "
         "accepted because readLoop hands every datagram its own copy (dataCopy) and handlePacket uses the payload before returning; "
         "readLoop/handlePacket themselves (real sockets, goroutines) are not driven by this check",
+        "overlapping handling of two inputs is outside the property's quantifier (inputs, one at a time) and outside the theorems; it is "
+        "covered by supplementary harness cases only: twoconn (connection B handled while a Write of connection A is parked; both must be "
+        "answered as when alone) and relay (a REAL UDPRelay on 127.0.0.1: a datagram parked in tunnel set-up while later datagrams arrive "
+        "must be forwarded with its own DATA bytes — this is what justifies accepting parseUDPHeader's sub-slice payload); rounds in which "
+        "a loopback datagram does not arrive within 2 s are counted inconclusive, never failed",
         "host names longer than 255 bytes are not given to buildUDPHeader (its callers pass hosts obtained from parseUDPHeader)",
     ]
     if broken is not None:
